@@ -217,11 +217,27 @@ func cmdTplCases(args []string) error {
 			if !ok {
 				break
 			}
+			// a view is rendered as soon as it has been handed out (normal use); that must not disturb any later
+			// request (an html template that has been executed can no longer be cloned: views must be clones)
+			if h.isView {
+				for n, want := range c.Want[i] {
+					if want == "-" {
+						continue
+					}
+					if out, err := h.exec(n); err != nil || out != want {
+						fail("render", inner, fmt.Sprintf("view of request %d renders %s as %q (err %v), specification %q", i, n, out, err, want))
+						ok = false
+					}
+				}
+			}
+			if !ok {
+				break
+			}
 		}
 		if !ok {
 			continue
 		}
-		// views are never cloned again: execute them and compare the rendered output too
+		// and once more at the end: every view renders its own layering
 		for j, hh := range handed {
 			if !hh.isView {
 				continue
